@@ -324,14 +324,18 @@ func jsonSchemaShapes() []Shape {
 
 func openAPIShapes() []Shape {
 	var out []Shape
-	add := func(name, schemas string) { out = append(out, Shape{Format: "openapi", Name: name, Doc: oaDoc(schemas)}) }
+	add := func(name, schemas string) {
+		out = append(out, Shape{Format: "openapi", Name: name, Doc: oaDoc(schemas)})
+	}
 	raw := func(name, doc string, extra map[string]string) {
 		out = append(out, Shape{Format: "openapi", Name: name, Doc: doc, Extra: extra})
 	}
 	field := func(t string, more ...string) string {
 		return strings.Join(append([]string{`"Root":{"type":"object","properties":{"f":` + t + `}}`}, more...), ",")
 	}
-	root := func(t string, more ...string) string { return strings.Join(append([]string{`"Root":` + t}, more...), ",") }
+	root := func(t string, more ...string) string {
+		return strings.Join(append([]string{`"Root":` + t}, more...), ",")
+	}
 	both := func(name, t string, more ...string) {
 		add(name+"/field", field(t, more...))
 		add(name+"/root", root(t, more...))
